@@ -119,16 +119,33 @@ func setupAnchoring(t string) {
 	setup(t)
 }
 
+// setupBlocks is the Setup of the spaces over the base alphabet.
+func setupBlocks(t string) {
+	tier = t
+	anchorMode = false
+	alphabet = baseAlphabet
+	setup(t)
+}
+
+// setup rebuilds the rule universe from nothing, so that a space sees the same universe whatever the worker
+// process ran before (a fresh worker, a replay, or a worker that went through the earlier spaces). The anchoring
+// space works on the base universe plus the rules with metacharacters in their values: that is the set of
+// distinct rules it has always been run on (the universe used to be appended to by every Setup, so a worker that
+// had been through the earlier spaces carried each base rule twice and a fresh one carried none).
 func setup(string) {
-	paths := []string{"rules/a.yml", "other/b.yml"}
-	if anchorMode {
-		paths = []string{"rules/a$b.yml", "rules/a$", "xrules/a$b.yml"}
+	universe = nil
+	type src struct{ path, text string }
+	var srcs []src
+	for _, path := range []string{"rules/a.yml", "other/b.yml"} {
+		srcs = append(srcs, src{path, buildFile(path)})
 	}
-	for _, path := range paths {
-		text := buildFile(path)
-		if anchorMode {
-			text = buildAnchorFile()
+	if anchorMode {
+		for _, path := range []string{"rules/a$b.yml", "rules/a$", "xrules/a$b.yml"} {
+			srcs = append(srcs, src{path, buildAnchorFile()})
 		}
+	}
+	for _, sr := range srcs {
+		path, text := sr.path, sr.text
 		entries, crash := pipeline.Parse(path, []byte(text), true, parser.PrometheusSchema, model.UTF8Validation)
 		if crash != nil {
 			panic(crash.Value)
@@ -194,7 +211,9 @@ func (c cond) hcl(ind string) string {
 	}
 }
 
-var alphabet = []cond{
+var alphabet = baseAlphabet
+
+var baseAlphabet = []cond{
 	{kind: "path", a: `rules/a\.yml`}, {kind: "path", a: `rules/.*`}, {kind: "path", a: `a\.yml`}, {kind: "path", a: `.*b.*`},
 	{kind: "name", a: "aaa"}, {kind: "name", a: "a"}, {kind: "name", a: "a.*"}, {kind: "name", a: "(aaa|bbb)"},
 	{kind: "kind", a: "alerting"}, {kind: "kind", a: "recording"},
@@ -564,8 +583,8 @@ func main() {
 		Rule:        "space anchoring: the same block shapes over 45 path/name/label/annotation conditions whose patterns end or start in escaped or bare regexp metacharacters (cost\\$, ^cost, cost$, cost\\$|cost, ...) applied to rules, labels, annotations and paths such as cost$extra, cost$, xcost$, ^cost, rules/a$b.yml: a condition means the fully anchored regexp; space blocks: rule{} blocks of shape {none, m, i, mm, mi, ii} whose sub-blocks are conjunctions of <=c conditions (quick: c=2 for single sub-blocks, 1 in pairs; thorough: 3 for single sub-blocks, on the larger rule universe; both complete) over a 36-condition alphabet covering all nine kinds (anchoring probes, group-level labels, 7 duration operators, 3 commands, 7 state lists), loaded through the real config.Load, applied through GetChecksForEntry to a rule universe (80 rules quick / 276 thorough: kinds x names x group-level/rule-level/overriding labels x annotations x for x keep_firing_for x 2 paths) x 4 change states x 3 commands, compared with a reference evaluator of the documented meaning. distinct = distinct config text; space two-blocks: two unconditional rule{} blocks carrying the same kind of check with different parameters (10 kinds x 2 orders): both checks must be selected",
 		Assumptions: []string{"a block 'is applied' when its marker check is in GetChecksForEntry's result", "removed rules are outside (no configurable check runs on them)"},
 		Spaces: []*explore.Space{
-			{Name: "blocks", Body: body, Setup: func(t string) { tier = t; setup(t) }, Bound: func(string) int { return -1 }},
-			{Name: "two-blocks", Body: twoBlocks, Setup: func(t string) { tier = t; setup(t) }, Bound: func(string) int { return -1 }},
+			{Name: "blocks", Body: body, Setup: setupBlocks, Bound: func(string) int { return -1 }},
+			{Name: "two-blocks", Body: twoBlocks, Setup: setupBlocks, Bound: func(string) int { return -1 }},
 			{Name: "anchoring", Body: body, Setup: setupAnchoring, Bound: func(string) int { return -1 }},
 		},
 		BudgetS: func(t string) int {
